@@ -38,7 +38,8 @@ RULE = ('Three generated parts. gate: auth configured as a non-empty dict of '
         'admin listens. A fourth part (asyncio) runs the real instrumented '
         '_send_ping of an application client on the virtual-time loop while '
         'another connection creates / empties a namespace after 0-6 loop '
-        'iterations: the PING must be sent as without instrumentation.')
+        'iterations: the PING must be sent as without instrumentation.'
+        ' The gate part can instrument another server of the same process first, with credentials of its own, which are then presented to the judged server.')
 ASSUMPTIONS = [
     'configured credentials are string-valued; empty dict/list credentials '
     'are outside the domain; a payload that makes the predicate raise does '
